@@ -518,10 +518,10 @@ func init() {
 	core.Register(&core.Check{
 		ID:    "C10",
 		Level: "exploration",
-		Rule: "for each of {fat12, fat16, fat32, ext4, iso9660 plain/RockRidge/Joliet, squashfs with fragments / without fragments / gzip / an uncompressed image whose block lists were given a sparse entry (zero block occupying no space, as other writers produce) in front of stored blocks} an image built by the library holds 11 files of known content with sizes 0, 1, unit-1, unit, unit+1, 2*unit, ... 16*unit+3 (unit = cluster/block/fragment size); seeded call sequences of Read (sizes 0,1,7,unit-1,unit,unit+1,3*unit+5,1 MiB) and Seek (all three whences; positive, zero, negative offsets; also past EOF) followed by Close/Read/Seek/Read are applied to handles from OpenFile(O_RDONLY), Open and (FAT/ext4) OpenFile(O_RDWR); every result is compared with a shadow cursor over the known bytes (bytes.Reader semantics, relaxed where io.Reader allows); non-trivial = a sequence that ran to its end; distinct = distinct (fs, route, sequence)",
+		Rule: "for each of {fat12, fat16, fat32, ext4, iso9660 plain/RockRidge/Joliet, squashfs with fragments / without fragments / gzip / an uncompressed image whose block lists were given a sparse entry (zero block occupying no space, as other writers produce) in front of stored blocks} an image built by the library holds 11 files of known content with sizes 0, 1, unit-1, unit, unit+1, 2*unit, ... 16*unit+3 (unit = cluster/block/fragment size); seeded call sequences of Read (sizes 0,1,7,unit-1,unit,unit+1,3*unit+5,1 MiB) and Seek (all three whences; positive, zero, negative offsets; also past EOF) followed by Close/Read/Seek/Read are applied to handles from OpenFile(O_RDONLY), Open and (FAT/ext4) OpenFile(O_RDWR); every result is compared with a shadow cursor over the known bytes (bytes.Reader semantics, relaxed where io.Reader allows); image kind ext4-long: one 130 MiB file on a 256 MiB ext4 volume with 1 KiB blocks, whose extents in block groups 10..24 have the greatest length an initialised extent can have (32768 blocks); non-trivial = a sequence that ran to its end; distinct = distinct (fs, route, sequence)",
 		Assumptions: []string{"short reads are allowed as long as they make progress; (n>0, io.EOF) and (n, nil) then (0, io.EOF) are both accepted", "zero-length reads must only return no data", "a negative seek target must be refused and leave the cursor unchanged (verified by the following reads)"},
 		MinSigs:   map[string]int{"quick": 1000, "thorough": 30000},
-		NeedMarks: []string{"O_RDWR handle read after writes", "seek past EOF accepted", "seek to negative target refused", "seek SeekEnd negative", "seek SeekCurrent negative", "read mid-unit-in-last-unit"},
+		NeedMarks: []string{"ext4-long", "O_RDWR handle read after writes", "seek past EOF accepted", "seek to negative target refused", "seek SeekEnd negative", "seek SeekCurrent negative", "read mid-unit-in-last-unit"},
 		CPUSec:    300,
 		Cases: func(seed int64, tier string) []core.Case {
 			seqs, calls := 30, 30
